@@ -245,6 +245,148 @@ def g5_conversions(ctx, cfg_name, prog, rule='R-GUARD/G5'):
                cfg=cfg_name, sample=dict(config=cfg_name, function=f['qn'][:100]))
 
 
+# ---------------------------------------------------------------- G8 (C05): equality is representation independent
+def _coord_taint(f, pname):
+    """locals whose value derives from the x / y coordinate of parameter pname (flow-insensitive fixpoint over calls and
+    initialisers)"""
+    root = 'P:' + pname
+    tainted = set()
+
+    def mentions(ast):
+        for x in walk(ast):
+            if x.get('k') == 'member' and x.get('name') in ('x', 'y') and pr.norm_obj(pr.canon(x['base'])) == root:
+                return True
+            if x.get('k') == 'ref' and x.get('rk') == 'local' and x.get('id') in tainted:
+                return True
+        return False
+    changed = True
+    while changed:
+        changed = False
+        for x in walk(f['body']):
+            tgt = None
+            src = None
+            if x.get('k') == 'call' and x.get('this') is not None:
+                t = strip(x['this'])
+                while t.get('k') == 'cast' and t.get('ck') in ('DerivedToBase', 'UncheckedDerivedToBase'):
+                    t = strip(t['e'])
+                if t.get('k') == 'ref' and t.get('rk') == 'local':
+                    tgt, src = t['id'], x.get('args', [])
+            elif x.get('k') == 'decl':
+                for v in x['vars']:
+                    if v.get('init') is not None and v.get('id') not in tainted and mentions(v['init']):
+                        tainted.add(v['id'])
+                        changed = True
+            elif x.get('k') == 'assign':
+                t = strip(x['lhs'])
+                if t.get('k') == 'ref' and t.get('rk') == 'local':
+                    tgt, src = t['id'], [x['rhs']]
+            if tgt is not None and tgt not in tainted and any(mentions(a) for a in src):
+                tainted.add(tgt)
+                changed = True
+    return tainted, mentions
+
+
+def g8_equality(ctx, cfg_name, prog, rule='R-GUARD/G8'):
+    """The identity has many representations (x, y, 0): the verdict of Projective::equal may depend on an operand's x / y only
+    where that operand is known not to be the identity.  Necessity: (1,1,0) and (4,8,0) are both the identity (e.g. the result
+    of P + (-P) is (r^2, -r^3, 0), not (0,1,0)); a coordinate comparison outside the guards calls them different."""
+    fs = pr.functions_named(prog, NS + 'Projective::equal')
+    ctx.floor('%s Projective::equal instantiations[%s]' % (rule, cfg_name), len(fs), 2)
+    for f in fs:
+        g = CFG(f)
+        zc = zero_conds(g)
+        tag = f['qn'].split('Projective<')[-1][:24]
+        for p in f['params'][:2]:
+            name = 'P:' + p['name']
+            tainted, mentions = _coord_taint(f, p['name'])
+            conds = zc.get(name, [])
+            decisions = [n for n in g.cond_nodes() if mentions(n.ast)] + \
+                        [n for n in g.stmt_nodes() if n.ast.get('k') == 'return' and mentions(n.ast)]
+            bad = [n for n in decisions if not guarded_by_false(g, conds, n.id)]
+            ctx.ob(rule, bool(decisions) and not bad, 'G8|equal|%s|%s' % (tag, p['name']), loc_str(bad[0].ast) if bad else loc_str(f),
+                   '%s: the verdict depends on the x/y coordinates of `%s` at %s without `%s` being known non-identity there (z != 0): two '
+                   'representations (x, y, 0), (x\', y\', 0) of the identity would compare unequal' %
+                   (f['qn'], p['name'], loc_str(bad[0].ast) if bad else '?', p['name']), cfg=cfg_name,
+                   sample=dict(config=cfg_name, function=f['qn'][:100], operand=p['name'], coordinate_decisions=len(decisions)))
+    # Affine::equal: truth table of the returned expression over (a.infinity, b.infinity, x equal, y equal)
+    fs = pr.functions_named(prog, NS + 'Affine::equal')
+    ctx.floor('%s Affine::equal instantiations[%s]' % (rule, cfg_name), len(fs), 2)
+    for f in fs:
+        rets = [x for x in walk(f['body']) if x.get('k') == 'return']
+        inits = {}
+        for x in walk(f['body']):
+            if x.get('k') == 'decl':
+                for v in x['vars']:
+                    if v.get('init') is not None:
+                        inits[v['id']] = v['init']
+        pn = [q['name'] for q in f['params'][:2]]
+
+        def ev(e, env):
+            e = strip(e)
+            if not isinstance(e, dict):
+                return None
+            k = e.get('k')
+            if 'cv' in e and k != 'ref':
+                return int(e['cv'])
+            if 'bool' in e and k not in ('ref', 'member'):
+                return int(bool(e['bool']))
+            if k == 'ref' and e.get('rk') == 'local' and e.get('id') in inits:
+                return ev(inits[e['id']], env)
+            if k == 'member' and e.get('name') == 'infinity':
+                b = pr.norm_obj(pr.canon(e['base']))
+                return env.get('inf:' + b)
+            if k == 'call' and e.get('name') == 'is_zero' and e.get('this') is not None:
+                return env.get('inf:' + pr.norm_obj(pr.canon(e['this'])))
+            if k == 'call' and e.get('name') == 'equal' and len(e.get('args', [])) == 2:
+                a0, a1 = [pr.norm_obj(pr.canon(a)) for a in e['args']]
+                for c in ('x', 'y'):
+                    if {a0, a1} == {'P:%s.%s' % (pn[0], c), 'P:%s.%s' % (pn[1], c)}:
+                        return env[c]
+                return None
+            if k == 'un' and e.get('op') == '!':
+                v = ev(e['e'], env)
+                return None if v is None else int(not v)
+            if k == 'bin':
+                a = ev(e['lhs'], env)
+                if e['op'] == '&&':
+                    if a == 0:
+                        return 0
+                    b = ev(e['rhs'], env)
+                    return None if (a is None or b is None) else int(bool(a) and bool(b))
+                if e['op'] == '||':
+                    if a:
+                        return 1
+                    b = ev(e['rhs'], env)
+                    return None if (a is None or b is None) else int(bool(a) or bool(b))
+                b = ev(e['rhs'], env)
+                if a is None or b is None:
+                    return None
+                return {'==': int(a == b), '!=': int(a != b), '&': a & b, '|': a | b, '^': a ^ b}.get(e['op'])
+            if k == 'cond':
+                c = ev(e['c'], env)
+                if c is None:
+                    return None
+                return ev(e['then'] if c else e['else'], env)
+            return None
+        ok = len(rets) == 1 and rets[0].get('e') is not None
+        bad_row = None
+        if ok:
+            for ai in (0, 1):
+                for bi in (0, 1):
+                    for xe in (0, 1):
+                        for ye in (0, 1):
+                            env = {'inf:P:' + pn[0]: ai, 'inf:P:' + pn[1]: bi, 'x': xe, 'y': ye}
+                            got = ev(rets[0]['e'], env)
+                            want = int(ai == bi and (ai == 1 or (xe and ye)))
+                            if got != want and bad_row is None:
+                                bad_row = (ai, bi, xe, ye, got, want)
+            ok = bad_row is None
+        ctx.ob(rule, ok, 'G8|affine-equal|' + f['qn'].split('Affine<')[-1][:24], loc_str(f),
+               '%s: verdict table over (a.infinity, b.infinity, x equal, y equal) differs from "both infinite, or both finite with equal '
+               'coordinates" at %s (got, want = last two; None = not a single-return boolean expression the rule can evaluate)' %
+               (f['qn'], bad_row), cfg=cfg_name, sample=dict(config=cfg_name, function=f['qn'][:100], rows=16))
+
+
 # ---------------------------------------------------------------- G2/G3/G7 (C02)
 def g237_field_zero_cases(ctx, cfg_name, prog, rule='R-GUARD'):
     # G2: fp_inverse
